@@ -1143,11 +1143,22 @@ def pattern_tags(tokens, info):
 
 
 def pat_inv_array_of_functions(tokens, info):
-    """'T ([7])(void)', 'T (x[7])()': an array whose elements are functions
-    (invalid C); as a parameter the C parser turns it into a pointer to function."""
-    for i in range(len(tokens) - 2):
+    """'T ([7])(void)', 'T (x[7])()', 'fn_t [7]' with fn_t a typedef of a
+    function type: an array whose elements are functions (invalid C); as a
+    parameter the C parser turns it into a pointer to function."""
+    n = len(tokens)
+    for i in range(n - 2):
         if tokens[i] == ']' and tokens[i + 1] == ')' and tokens[i + 2] == '(':
             return True
+    for i, t in enumerate(tokens):
+        if t in info.typedefs and category(['td', t], info) == 'func':
+            k = i + 1
+            while k < n and tokens[k] in QUALS:
+                k += 1
+            if k < n and is_ident(tokens[k]):
+                k += 1
+            if k < n and tokens[k] == '[':
+                return True
     return False
 
 
